@@ -58,6 +58,9 @@ pub enum Op {
     Burst { peer: u8, n: u8, stream: bool, room: u8 },
     /// the admin (peer 0) appends a user entry for a key that belongs to nobody
     RoomChange { room: u8, key: u8 },
+    /// the admin (peer 0) issues ONE mutation holding the same kind of room change and the creation of a
+    /// data row of `data_room`, the row before or after the room in the mutation text
+    RoomChangeWithRow { room: u8, key: u8, data_room: u8, entity: u8, text: u8, row_first: bool },
 }
 
 pub fn action_strategy(rooms: u8) -> impl Strategy<Value = Action> {
@@ -98,6 +101,8 @@ pub fn op_strategy(peers: u8, rooms: u8) -> impl Strategy<Value = Op> {
         1 => (0..peers).prop_map(|peer| Op::Recompute { peer }),
         1 => (0..peers, 2u8..6, any::<bool>(), 0..rooms).prop_map(|(peer, n, stream, room)| Op::Burst { peer, n, stream, room }),
         1 => (0..rooms, 0u8..4).prop_map(|(room, key)| Op::RoomChange { room, key }),
+        1 => (0..rooms, 0u8..4, 0..rooms, 0u8..2, 0u8..14, any::<bool>())
+            .prop_map(|(room, key, data_room, entity, text, row_first)| Op::RoomChangeWithRow { room, key, data_room, entity, text, row_first }),
     ]
 }
 
@@ -648,6 +653,42 @@ impl SyncWorld {
                 StepInfo {
                     applied: true,
                     kind: "room-change",
+                    peer: Some(0),
+                    result: Some(r),
+                    stats: vec![],
+                }
+            }
+            Op::RoomChangeWithRow { room, key, data_room, entity, text, row_first } => {
+                Clock::advance(1);
+                let ri = *room as usize % self.rooms64.len();
+                let di = *data_room as usize % self.rooms64.len();
+                let entity = *entity % 2;
+                let mut p = Parameters::new();
+                p.add("room", self.rooms64[ri].clone()).unwrap();
+                p.add("auth", self.auths64[ri].clone()).unwrap();
+                p.add("droom", self.rooms64[di].clone()).unwrap();
+                p.add("text", text_for(*text)).unwrap();
+                let paper = signing_key_for_secret(&secret_for(&format!("paper{}", key)));
+                use discret::verif::security::SigningKey;
+                p.add("k", b64(&paper.export_verifying_key())).unwrap();
+                let room_part = "sys.Room { id:$room authorisations:[{ id:$auth users:[{verif_key:$k}] }] }";
+                let row_part = if entity == 0 { "app.Item { room_id:$droom name:$text }" } else { "app.Note { room_id:$droom text:$text }" };
+                let q = if *row_first { format!("mutate {{ {} {} }}", row_part, room_part) } else { format!("mutate {{ {} {} }}", room_part, row_part) };
+                let r = match self.peers[0].mutate(&q, Some(p)).await {
+                    Ok(js) => {
+                        let v: serde_json::Value = serde_json::from_str(&js).unwrap();
+                        if let Some(id) = v[ENTITIES[entity as usize]]["id"].as_str() {
+                            self.rows.push(RowInfo { id: id.to_string(), entity, creator: 0 });
+                            self.last_write.insert(id.to_string(), Clock::get());
+                        }
+                        Ok(())
+                    }
+                    Err(e) => Err(e),
+                };
+                self.peers[0].fence().await;
+                StepInfo {
+                    applied: true,
+                    kind: "room-change-with-row",
                     peer: Some(0),
                     result: Some(r),
                     stats: vec![],
